@@ -594,12 +594,21 @@ def page_cases():
         out.append((f"lhu x10, tail[{i}]", 10, 21 + i))
     for i in (3, 4, 5):
         out.append((f"sw x11, arr[{i}], x12", 12, PAGE_BASE + 4 * i))
+    # every declaration kind directly behind a variable that ends off a word boundary (each variable starts on a 4-byte boundary)
+    for line, reg, want in (("la x6, b", 6, DATA), ("la x6, z", 6, DATA + 4), ("la x6, z[1]", 6, DATA + 8), ("lw x7, z[1]", 7, 0), ("sw x11, z[1], x12", 12, DATA + 8),
+                            ("sw x11, z, x12", 12, DATA + 4), ("la x6, h", 6, DATA + 12), ("lh x7, h", 7, 5), ("la x6, z2", 6, DATA + 16), ("sw x11, z2, x12", 12, DATA + 16),
+                            ("la x6, s", 6, DATA + 20), ("lbu x7, s[1]", 7, 98), ("la x6, z3", 6, DATA + 24), ("sw x11, z3[0], x12", 12, DATA + 24), ("la x6, w", 6, DATA + 28),
+                            ("lw x7, w", 7, 9), ("la x6, e", 6, DATA + 32), ("la x6, z4", 6, DATA + 36), ("la x6, q", 6, DATA + 40), ("lb x7, q", 7, 7)):
+        out.append((line, reg, want, MIXED_DATA))
     return out
 
 
+MIXED_DATA = '.data\nb: .byte 1, 2, 3\nz: .zero 2\nh: .half 5\nz2: .zero 1\ns: .string "ab"\nz3: .zero 1\nw: .word 9\ne: .string ""\nz4: .zero 1\nq: .byte 7\n'
+
+
 def page_case(k):
-    line, reg, want = page_cases()[k]
-    text = PAGE_DATA + ".text\naddi x11, x0, 77\n" + line + "\n"
+    line, reg, want = page_cases()[k][:3]
+    text = (page_cases()[k][3] if len(page_cases()[k]) > 3 else PAGE_DATA) + ".text\naddi x11, x0, 77\n" + line + "\n"
     try:
         a = asm.assemble(text)
         n = 0
@@ -607,11 +616,11 @@ def page_case(k):
             a.sim.step()
             n += 1
     except Exception as e:  # noqa
-        return f"{line!r} behind a 4 KiB data segment: {type(e).__name__}: {getattr(e, 'instruction_repr', e)!r}"
+        return f"{line!r} behind the data segment {text.split('.text')[0][:40]!r}...: {type(e).__name__}: {getattr(e, 'instruction_repr', e)!r}"
     got = int(a.sim.state.register_file.registers[reg])
     if got != want:
         return f"{line!r}: x{reg} = {got:#x} after running, the documented effect gives {want:#x} (group {a.fields[1:]})"
-    if line.startswith("sw") and int(a.sim.state.memory.read_word(want)) != 77:
+    if line.startswith("sw") and int(a.sim.state.memory.read_word(want)) != 77:  # noqa
         return f"{line!r}: the word at {want:#x} is {int(a.sim.state.memory.read_word(want))}, expected 77"
     return None
 
